@@ -6,7 +6,7 @@ import os
 import random
 import re
 
-REPO = "/repo"
+REPO = os.environ.get("VERIF_REPO", "/repo")
 
 OPEN_FRAGS = [
     " ", "  ", "\n", "\t", "\r\n", ";", ",", ".", "=", "*", "**", "/", "+", "-", "<", ">", "<=", ">=",
@@ -262,7 +262,16 @@ def string_family(rng, n):
         elif form == 8:
             s = "%m(" + rng.choice(["%str(", '"', "'", ""]) + body + rng.choice([")", '"', "'", ""]) + ")"
         else:
-            hexd = "".join(rng.choice("0123456789abcdefABCDEF,,") for _ in range(rng.randint(0, 7)))
+            if rng.random() < 0.35:
+                # byte sequences that happen to be well-formed UTF-8 (hex literals decode byte-wise as Latin-1)
+                ch = rng.choice(["\u00e9", "\u00a0", "\u20ac", "\U0001F525", "\u00df", "\u0416", "\u4e2d"])
+                hx = ch.encode("utf-8").hex()
+                hx = "".join(c.upper() if rng.random() < 0.5 else c for c in hx)
+                pre = rng.choice(["", "41", "41,", "7f", "c3a9", "E282AC,"])
+                post = rng.choice(["", "42", ",42", "80", "C3"])
+                hexd = pre + hx + post
+            else:
+                hexd = "".join(rng.choice("0123456789abcdefABCDEF,,") for _ in range(rng.randint(0, 7)))
             q = rng.choice(["'", '"'])
             s = q + rng.choice(["", "", " ", "+", "g"]) + hexd + q + rng.choice(["x", "X"])
         if rng.random() < 0.3:
@@ -317,7 +326,8 @@ def num_family(rng, n, exhaustive_len=3):
             if lit.startswith(".") and len(lit) == 1:
                 lit = "0."
             if rng.random() < 0.6:
-                lit += rng.choice("eE") + rng.choice(["", "+", "-"]) + str(rng.randint(0, 45))
+                lit += (rng.choice("eE") + rng.choice(["", "+", "-"]) + "0" * rng.choice([0, 0, 0, 1, 2, 3, 5, 9]) +
+                        str(rng.randint(0, 45)))
         else:
             lit = rng.choice(NUM_BOUNDARY)
         ctx = rng.choice(NUM_CTX) if rng.random() < 0.6 else "{}"
@@ -328,7 +338,7 @@ def num_family(rng, n, exhaustive_len=3):
 # ----------------------------------------------------------------------------- C18 family
 
 SEP_STATS = ["%let a=1;", "%put x;", "%if 1 %then", "%else", "%do;", "%end;", "%macro m;", "%mend;", "%global g;",
-             "%local l;", "%goto l;", "%lbl:", "%lbl :", "%return;", "%abort;", "%symdel a;", "%syscall f();",
+             "%local l;", "%goto l;", "%lbl:", "%lbl :", "%lbl\n:", "%lbl /*c*/\n :", "%lbl\n\n:;", "%return;", "%abort;", "%symdel a;", "%syscall f();",
              "%sysexec ls;", "%copy m / s;", "%input;", "%window w;", "%display w;", "%syslput a=b;", "%sysrput a=b;",
              "%sysmacdelete m;", "%sysmstoreclear;", "%do i=1 %to 2;", "%do %while(1);", "%include f;", "%list;",
              "%run;", "%to", "%by", "%then", "%while(1)", "%until(1)"]
